@@ -16,7 +16,7 @@ RULE = ("one case = one body (operator / assertion / conversion / array access /
         "the body); non-trivial = the guarded run emitted >=1 constraint and was compared with its unguarded twin run; "
         "distinct by (source, inputs); cell = body template x mechanism x effective guard x operand class")
 
-MECHS = ("guarded", "lazy", "block")
+MECHS = ("guarded", "lazy", "block", "lazy_else")     # lazy_else: the body is the callable *false* branch (effective guard = not c)
 OUTER_MECHS = MECHS + ("elif",)        # elif: the body is the second branch of an if/elif chain (effective guard = not e0 and c0)
 
 
@@ -86,11 +86,14 @@ def build(tid, rty, tmpl, mech, depth, bl, res, ins, consts, rnd=None):
             lines = ["@guarded(c%d)" % d, "def _b%d():" % d] + body + ["    return r", "r = _b%d()" % d, "r = if_then_else(c%d, r, alt)" % d]
         elif m == "lazy":
             lines = ["def _t%d():" % d] + body + ["    return r", "r = if_then_else(c%d, _t%d, lambda: alt)" % (d, d)]
+        elif m == "lazy_else":
+            lines = ["def _t%d():" % d] + body + ["    return r", "r = if_then_else(c%d, lambda: alt, _t%d)" % (d, d)]
         elif m == "elif":
             lines = ["_.r = alt + 0", "if _if(e0, ctx=_):", "    _.r = alt + 1", "if _elif(lambda: c%d, ctx=_):" % d] + body + ["    _.r = r", "_endif(ctx=_)", "r = _.r"]
         else:
             lines = ["_.r = alt + 0", "if _if(c%d, ctx=_):" % d] + body + ["    _.r = r", "_endif(ctx=_)", "r = _.r"]
     g = "\n".join(lines + ["res = r"]) + "\n"
+    case.mechs = mechs
     return case, pre, ung, g
 
 
@@ -169,7 +172,7 @@ def worker(job):
                 for combo, tail in itertools.product(itertools.product((1, 0), repeat=depth), tails):
                     inputs = ops + list(combo) + tail
                     Gd = run(G, N, pre + gsrc, inputs, bl, res, p)
-                    eff = all(combo) and (len(tail) == 1 or tail[1] == 0)
+                    eff = all((cv == 0) if mm == "lazy_else" else (cv == 1) for cv, mm in zip(combo, case.mechs)) and (len(tail) == 1 or tail[1] == 0)
                     exp_alt = alt + 1 if (len(tail) == 2 and tail[1] == 1) else alt
                     key = (pre + gsrc, tuple(inputs))
                     cell = "%s|%s|%s|%s" % (tid, mech, "true" if eff else "false", oclass)
@@ -258,10 +261,12 @@ def solver_halves(R, capture, solve, N, tid, rty, tmpl, mech, depth, bl, res, va
     if mech == "elif":
         return      # the solver halves use the three plain mechanisms
     if rty is not None:
-        combo = [0] + [rnd.randint(0, 1) for _ in range(depth - 1)]
-        rnd.shuffle(combo)
         ops = invalid if (invalid is not None and rnd.random() < 0.5) else valid
         case, pre, ung, gsrc = build(tid, rty, tmpl, mech, depth, bl, res, ops, consts, rnd)
+        # at least one level not effective
+        combo = [rnd.randint(0, 1) for _ in range(depth)]
+        k = rnd.randrange(depth)
+        combo[k] = 1 if case.mechs[k] == "lazy_else" else 0
         cap = capture.capture(pre, gsrc, ["res"], ops + combo + [alt], N, bl, res, p=p)
         if cap.exc is None:
             r = solve.solve(cap.cons, cap.fixed, p, cap.result_lcs, maxleaves=40000)
@@ -280,7 +285,7 @@ def solver_halves(R, capture, solve, N, tid, rty, tmpl, mech, depth, bl, res, va
     # (b) true guard: enforcement with checks off equals unguarded enforcement (UNSAT <=> UNSAT)
     if invalid is not None:
         case, pre, ung, gsrc = build(tid, rty, tmpl, mech, depth, bl, res, invalid, consts, rnd)
-        inputs = invalid + [1] * depth + [alt]
+        inputs = invalid + [0 if mm == "lazy_else" else 1 for mm in case.mechs] + [alt]
         cu = capture.capture(pre, ung, [], inputs, N, bl, res, p=p, ignore=True)
         cg = capture.capture(pre, gsrc, [], inputs, N, bl, res, p=p, ignore=True)
         if cu.exc is not None or cg.exc is not None:
